@@ -88,7 +88,7 @@ def check_fault_case(ctx, ch, events, engine, dm):
 
 # ---- robustness: damaged documents -------------------------------------------------------------------------
 damage_ops = st.lists(st.tuples(st.sampled_from(['drop_attr', 'dup_id', 'dangling', 'rename_tag', 'swap_parent', 'huge_id', 'unknown_elem',
-                                                 'empty_attr', 'del_elem', 'bad_ns', 'dup_elem', 'misplaced_elem', 'misplaced_elem']), st.integers(0, 10 ** 6)),
+                                                 'empty_attr', 'del_elem', 'bad_ns', 'dup_elem', 'misplaced_elem', 'misplaced_elem', 'hist_to_final']), st.integers(0, 10 ** 6)),
                       min_size=1, max_size=3)
 
 
@@ -131,6 +131,13 @@ def damage(xml, ops):
                     '<invoke type="scxml"/>', '<donedata/>', '<param name="p" expr="1"/>', '<content>x</content>', '<finalize/>', '<else/>', '<elseif cond="true"/>',
                     '<parallel id="zp"/>', '<state id="zs"><transition event="a" target="s0"/></state>'][n % 17]
             xml = xml[:t.start()] + what + xml[t.start():]
+        elif op == 'hist_to_final':
+            # the default transition of a history state is pointed at some <final> of the document (legal only if that final
+            # is a child / descendant of the history's parent)
+            finals = re.findall(r'<final id="([^"]+)"', xml)
+            hm = re.search(r'(<history\b[^>]*>\s*<transition\b[^>]*?target=")[^"]*(")', xml)
+            if finals and hm:
+                xml = xml[:hm.start()] + hm.group(1) + finals[n % len(finals)] + hm.group(2) + xml[hm.end():]
         elif op == 'del_elem':
             if t.group(2) == '/':
                 xml = xml[:t.start()] + xml[t.end():]
